@@ -70,3 +70,13 @@ package fingerproxy
 //@   ensures [C15:boolean-setting-case-insensitive-true] envSet(key) && lowerOf(envVal(key)) == "true" ==> r
 //@   ensures [C15:boolean-setting-case-insensitive-false] envSet(key) && lowerOf(envVal(key)) == "false" ==> !r
 //@   ensures [C15:boolean-setting-falls-back-to-default] !envSet(key) || (lowerOf(envVal(key)) != "true" && lowerOf(envVal(key)) != "false") ==> r == defaultVal
+
+//@ -- C03 / configuration: the PRIORITY-frame limit of the HTTP/2 fingerprint is exactly the configured number (0
+//@ -- means "none", not "unlimited"); without flags there is no limit
+//@ ghost var cfgH2PriorityLimit uint
+//@ func DefaultHeaderInjectors :: -> hs
+//@   props C03,C05
+//@   assigns cfgH2PriorityLimit
+//@   ghostset cfgH2PriorityLimit = h2fp.MaxPriorityFrames
+//@   ensures [C03:priority-frame-limit-is-the-configured-number] cfgH2PriorityLimit == ite(flagMaxHTTP2PriorityFrames == nil, 18446744073709551615, deref(flagMaxHTTP2PriorityFrames))
+//@   ensures [C05:three-fingerprint-headers-configured] len(hs) == 3
